@@ -165,7 +165,7 @@ func (r *Runner) oblige(st *State, kind, label string, goal Term, pos token.Pos)
 	if label != "" {
 		name += "[" + label + "]"
 	}
-	o := &Oblig{Name: name, Kind: kind, Fn: r.curName, Goal: goal, PC: append([]Term{}, st.pc...),
+	o := &Oblig{Name: name, Kind: kind, Fn: r.curName, Goal: goal, PC: st.fullPC(),
 		Pos: posOf(st.top().fn, pos), Trail: strings.Join(st.trail, ","), Expect: "unsat", FnObj: r.curFn, Spec: r.curSpec}
 	if len(st.frames) > 0 {
 		o.Params = st.frames[0].params
@@ -198,7 +198,7 @@ func (r *Runner) reach(st *State, label string) {
 		return
 	}
 	o := &Oblig{Name: r.curName + "#reach[" + label + "]", Kind: "reach", Fn: r.curName, Goal: False,
-		PC: append([]Term{}, st.pc...), Expect: "sat", Trail: strings.Join(st.trail, ","), FnObj: r.curFn, Spec: r.curSpec}
+		PC: st.fullPC(), Expect: "sat", Trail: strings.Join(st.trail, ","), FnObj: r.curFn, Spec: r.curSpec}
 	if r.curSpec != nil {
 		o.Props = r.curSpec.Props
 	}
